@@ -2,27 +2,54 @@ import Grexv.Lemmas.PrintLex
 import Grexv.Lemmas.ToPat
 
 /-
-Literal level of print → parse: the text `format_literal` writes for a cluster of plain graphemes is read
-back as the code points of the cluster, one `chr` item each.
+Literal level of print → parse: the text `format_literal` writes for a cluster of plain graphemes (code points
+and shorthand-class tokens) is read back atom by atom: one `chr` or `perl` item each.
 -/
 set_option linter.unusedSimpArgs false
 set_option linter.unusedVariables false
 namespace Grexv
 open Spec
 
-theorem lex_string (s : Str) (h : 92 ∉ s) :
+theorem pc_92 : pc 92 = [92] := by decide +kernel
+
+theorem pc_letter (k : ClassKind) (n : Bool) : pc (letterOf k n) = [letterOf k n] := by
+  cases k <;> cases n <;> decide +kernel
+
+theorem core1_92 : core1 92 = [92] := by decide +kernel
+
+theorem core1_letter (k : ClassKind) (n : Bool) : core1 (letterOf k n) = [letterOf k n] := by
+  cases k <;> cases n <;> decide +kernel
+
+/-- a class token is one `perl` item -/
+theorem step_perl (k : ClassKind) (n : Bool) (f : Nat) (rest : List Nat) (st : List Frame) (al co : List Pat) :
+    parseLoop false (f + 1) (92 :: letterOf k n :: rest) st al co = parseLoop false f rest st al (Pat.perl k n :: co) := by
+  have hpe : parseEscape false (letterOf k n :: rest) = some (.perl k n, rest) := by
+    cases k <;> cases n <;> simp [letterOf, parseEscape]
+  rw [parseLoop]
+  simp [hpe]
+
+theorem lex_atoms (as : List Atom) (h : ∀ a ∈ as, AtomOK a) :
     ∀ (f : Nat) (rest : List Nat) (st : List Frame) (al co : List Pat),
-      parseLoop false (f + s.length) (s.flatMap pc ++ rest) st al co =
-        parseLoop false f rest st al ((s.map Pat.chr).reverse ++ co) := by
-  induction s with
-  | nil => intro f rest st al co; simp
-  | cons x xs ih =>
+      parseLoop false (f + as.length) ((untok as).flatMap pc ++ rest) st al co =
+        parseLoop false f rest st al ((as.map atomPat).reverse ++ co) := by
+  induction as with
+  | nil => intro f rest st al co; simp [untok]
+  | cons a r ih =>
     intro f rest st al co
-    have hx : x ≠ 92 := fun hc => h (by simp [hc])
-    have hxs : 92 ∉ xs := fun hc => h (List.mem_cons_of_mem _ hc)
-    have : f + (x :: xs).length = (f + xs.length) + 1 := by simp; omega
-    rw [this, List.flatMap_cons, List.append_assoc, lex_char x hx, ih hxs]
-    simp
+    have hr : ∀ a ∈ r, AtomOK a := fun x hx => h x (List.mem_cons_of_mem _ hx)
+    have hlen : f + (a :: r).length = (f + r.length) + 1 := by simp; omega
+    cases a with
+    | chr c =>
+      have hc : c ≠ 92 := (h _ List.mem_cons_self).1
+      rw [hlen]
+      simp only [untok, List.flatMap_cons, List.append_assoc]
+      rw [lex_char c hc, ih hr]
+      simp [atomPat]
+    | cls k n =>
+      rw [hlen]
+      simp only [untok, List.flatMap_cons, List.append_assoc, pc_92, pc_letter, List.singleton_append, List.cons_append, List.nil_append]
+      rw [step_perl, ih hr]
+      simp [atomPat]
 
 theorem core1_ascii : (List.range 128).all (fun x => x == 92 || (core1 x != [92] && core1 x != [])) = true := by decide +kernel
 
@@ -36,38 +63,47 @@ theorem core1_shape (x : Nat) (hx : x ≠ 92) : core1 x ≠ [92] ∧ core1 x ≠
   · rw [core1_nonascii x (by omega)]
     simp [hx]
 
-theorem flatMap_core1_ne (s : Str) (h : 92 ∉ s) : s.flatMap core1 ≠ [92] := by
-  cases s with
-  | nil => simp
-  | cons x xs =>
-    have hx : x ≠ 92 := fun hc => h (by simp [hc])
-    obtain ⟨h1, h2⟩ := core1_shape x hx
-    simp only [List.flatMap_cons]
-    intro hc
-    match hcx : core1 x with
-    | [] => exact h2 hcx
-    | [a] =>
-      rw [hcx] at hc
-      simp only [List.singleton_append, List.cons.injEq] at hc
-      exact h1 (by rw [hcx, hc.1])
-    | a :: b :: r => rw [hcx] at hc; simp at hc
+theorem flatMap_core1_ne (as : List Atom) (h : ∀ a ∈ as, AtomOK a) : (untok as).flatMap core1 ≠ [92] := by
+  cases as with
+  | nil => simp [untok]
+  | cons a r =>
+    cases a with
+    | chr x =>
+      have hx : x ≠ 92 := (h _ List.mem_cons_self).1
+      obtain ⟨h1, h2⟩ := core1_shape x hx
+      simp only [untok, List.flatMap_cons]
+      intro hc
+      match hcx : core1 x with
+      | [] => exact h2 hcx
+      | [a] =>
+        rw [hcx] at hc
+        simp only [List.singleton_append, List.cons.injEq] at hc
+        exact h1 (by rw [hcx, hc.1])
+      | a :: b :: t => rw [hcx] at hc; simp at hc
+    | cls k n =>
+      simp only [untok, List.flatMap_cons, core1_92, core1_letter]
+      intro hc
+      simp at hc
 
-theorem R_escapeSymbols (s : Str) (h : BsOK s) :
-    R (escapeSymbols s) = if s = [92] then [92, 92] else s.flatMap pc := by
+theorem R_escapeSymbols (as : List Atom) (h : AtomsOK as) :
+    R (escapeSymbols (untok as)) = if as = [Atom.chr 92] then [92, 92] else (untok as).flatMap pc := by
   rw [escapeSymbols_eq]
   rcases h with rfl | h
-  · have : [92].flatMap core1 = [92] := by decide +kernel
+  · have : (untok [Atom.chr 92]).flatMap core1 = [92] := by decide +kernel
     simp only [this, ite_true]
     decide +kernel
-  · have hne : s ≠ [92] := by intro hc; subst hc; simp at h
-    simp only [flatMap_core1_ne s h, hne, ite_false, R_flatMap]
+  · have hne : as ≠ [Atom.chr 92] := by
+      intro hc; subst hc
+      have := (h _ List.mem_cons_self).1
+      exact this rfl
+    simp only [flatMap_core1_ne as h, hne, ite_false, R_flatMap]
     rfl
 
 /-- **one grapheme** -/
-theorem lex_grapheme (s : Str) (h : BsOK s) (f : Nat) (rest : List Nat) (st : List Frame) (al co : List Pat) :
-    parseLoop false (f + s.length) (R (escapeSymbols s) ++ rest) st al co =
-      parseLoop false f rest st al ((s.map Pat.chr).reverse ++ co) := by
-  rw [R_escapeSymbols s h]
+theorem lex_grapheme (as : List Atom) (h : AtomsOK as) (f : Nat) (rest : List Nat) (st : List Frame) (al co : List Pat) :
+    parseLoop false (f + as.length) (R (escapeSymbols (untok as)) ++ rest) st al co =
+      parseLoop false f rest st al ((as.map atomPat).reverse ++ co) := by
+  rw [R_escapeSymbols as h]
   split
   · rename_i hs
     subst hs
@@ -75,7 +111,7 @@ theorem lex_grapheme (s : Str) (h : BsOK s) (f : Nat) (rest : List Nat) (st : Li
   · rename_i hs
     rcases h with h | h
     · exact absurd h hs
-    · exact lex_string s h f rest st al co
+    · exact lex_atoms as h f rest st al co
 
 theorem fmtGrapheme_plain (cap : Bool) (s : Str) :
     fmtGrapheme (cfgPlain cap) (escapeGrapheme (cfgPlain cap) (Grapheme.ofStr s)) = escapeSymbols s := by
@@ -87,26 +123,31 @@ theorem fmtLiteral_plain (cap : Bool) (c : Cluster) (h : PlainBs c) :
   induction c with
   | nil => simp
   | cons g gs ih =>
-    obtain ⟨s, _, _, _, rfl⟩ := h g List.mem_cons_self
-    have : (Grapheme.ofStr s).reps.isEmpty = true := by simp [Grapheme.ofStr, Grapheme.reps]
+    obtain ⟨as, _, _, rfl⟩ := h g List.mem_cons_self
+    have : (Grapheme.ofStr (untok as)).reps.isEmpty = true := by simp [Grapheme.ofStr, Grapheme.reps]
     simp only [List.flatMap_cons, this, Bool.not_true, Bool.false_eq_true, ite_false, fmtGrapheme_plain, value_ofStr]
     rw [ih (fun x hx => h x (List.mem_cons_of_mem _ hx))]
+
+theorem atomsOf_cons (as : List Atom) (h : AtomsOK as) (gs : Cluster) :
+    atomsOf (Grapheme.ofStr (untok as) :: gs) = as ++ atomsOf gs := by
+  simp [atomsOf, value_ofStr, tokens_untok as h]
 
 /-- **one literal** -/
 theorem lex_literal (cap : Bool) (c : Cluster) (h : PlainBs c) :
     ∀ (f : Nat) (rest : List Nat) (st : List Frame) (al co : List Pat),
-      parseLoop false (f + (flat c).length) (R (fmtLiteral (cfgPlain cap) c) ++ rest) st al co =
-        parseLoop false f rest st al (((flat c).map Pat.chr).reverse ++ co) := by
+      parseLoop false (f + (atomsOf c).length) (R (fmtLiteral (cfgPlain cap) c) ++ rest) st al co =
+        parseLoop false f rest st al (((atomsOf c).map atomPat).reverse ++ co) := by
   rw [fmtLiteral_plain cap c h]
   induction c with
-  | nil => intro f rest st al co; simp [flat, R_nil]
+  | nil => intro f rest st al co; simp [atomsOf, R_nil]
   | cons g gs ih =>
     intro f rest st al co
-    obtain ⟨s, _, hb, _, rfl⟩ := h g List.mem_cons_self
+    obtain ⟨as, _, hok, rfl⟩ := h g List.mem_cons_self
     have hgs : PlainBs gs := fun x hx => h x (List.mem_cons_of_mem _ hx)
-    have hlen : f + (flat (Grapheme.ofStr s :: gs)).length = (f + (flat gs).length) + s.length := by
-      simp [flat, value_ofStr]; omega
-    rw [hlen, List.flatMap_cons, R_append, List.append_assoc, value_ofStr, lex_grapheme s hb, ih hgs]
-    simp [flat, value_ofStr]
+    rw [atomsOf_cons as hok gs]
+    have hlen : f + (as ++ atomsOf gs).length = (f + (atomsOf gs).length) + as.length := by
+      simp; omega
+    rw [hlen, List.flatMap_cons, R_append, List.append_assoc, value_ofStr, lex_grapheme as hok, ih hgs]
+    simp
 
 end Grexv
